@@ -45,6 +45,16 @@ CANCEL_EXC = {'SimCancelled': SimCancelled, 'KeyboardInterrupt': KeyboardInterru
 OK_EXC = ('TypeError', 'ValueError', 'ZeroDivisionError')
 
 
+def _epoch_close(a, b):
+    """Two Epoch snapshots whose JDE differ by less than 1e-8 day (about a millisecond)."""
+    try:
+        if a[0] != 'Epoch' or b[0] != 'Epoch':
+            return False
+        return abs(float.fromhex(a[1]) - float.fromhex(b[1])) < 1e-8
+    except Exception:
+        return False
+
+
 class OpCtx(object):
     __slots__ = ('op', 'entry', 'recv', 'args', 'kwargs', 'reach', 'pre', 'clones', 'pidx', 'cancel_kind',
                  'depth', 'fired', 'recv_inf', 'steps', 'S', 'cidx', 'calls', 'self_assign')
@@ -395,6 +405,10 @@ class Sim(object):
                 # it must not be changed by the call
             now = snap(o)
             if now == s:
+                continue
+            if ctx.self_assign and o is ctx.recv and _epoch_close(s, now):
+                # e.set(e) goes through the calendar date like every Epoch copy and may re-normalise the last
+                # bits of the JDE (as Epoch(e) does): judged to the precision the library's own copy has
                 continue
             if eff == 'rebind' and o is ctx.recv and kind == 'ok' and val is ctx.recv:
                 hid = op['recv']['h']
